@@ -2,6 +2,7 @@ package poolprops
 
 import (
 	"fmt"
+	"net/http"
 	"reflect"
 	"regexp"
 	"runtime"
@@ -17,6 +18,7 @@ import (
 	"github.com/Oudwins/zog/i18n/es"
 	p "github.com/Oudwins/zog/internals"
 	"github.com/Oudwins/zog/parsers/zjson"
+	"github.com/Oudwins/zog/zhttp"
 	"pgregory.net/rapid"
 
 	"verifharness/hh"
@@ -39,7 +41,8 @@ type c07Case struct {
 	// destination type whose fields are rotated by Rot[i]: one schema value serving several Go types across calls
 	Same []int `json:"same,omitempty"`
 	Rot  []int `json:"rot,omitempty"`
-	// JSON[i] != "": call i hands this document over through zjson.Decode (struct roots, parse) instead of Input
+	// JSON[i] != "": call i hands this document over through zjson.Decode (struct roots, parse) instead of Input;
+	// "form:<body>": an urlencoded POST body through zhttp.Request
 	JSON []string `json:"json,omitempty"`
 	Ops  []c07Op  `json:"ops"`
 }
@@ -122,6 +125,11 @@ func (b *built) run() *model.Result {
 	var in any
 	if b.c.Exec.Mode == "validate" {
 		model.SetFromVal(dest.Elem(), b.c.Input)
+	} else if body, ok := strings.CutPrefix(b.json, "form:"); ok {
+		// an urlencoded request body through zhttp (mostly malformed ones: the decode-failure issue is made by the front end)
+		req, _ := http.NewRequest("POST", "http://example.test/x", strings.NewReader(body))
+		req.Header.Set("Content-Type", "application/x-www-form-urlencoded")
+		in = zhttp.Request(req)
 	} else if b.json != "" {
 		in = zjson.Decode(strings.NewReader(b.json))
 	} else {
@@ -338,7 +346,7 @@ func genC07(rt *rapid.T, thorough bool) c07Case {
 			if err := model.JSONOf(cs.Root, cs.Input, &sb); err == nil && rapid.Bool().Draw(rt, "jvalid") {
 				js = sb.String()
 			} else {
-				js = rapid.SampledFrom([]string{"null", "[1]", `{"a":`, `"s"`, ""}).Draw(rt, "jbad")
+				js = rapid.SampledFrom([]string{"null", "[1]", `{"a":`, `"s"`, "", "form:name=%zz", "form:a=%", "form:x=1;y=2", "form:zzz=1"}).Draw(rt, "jbad")
 				if js == "" {
 					js = " "
 				}
